@@ -779,9 +779,11 @@ def p_via_shadow_outer_consumer(b):
         if f == "K" and not M.is_cin(op):
             mods.append(("cin", {"cl": "clone_if_necessary"}))
         for cname, cop in consumers:
-            if cop["c"] not in cat or (cname == "obs_r" and not b.has_fallible):
+            if cop["c"] not in cat:
                 continue
             for mname, mod in mods:
+                if cname == "obs_r" and not (b.has_fallible or mname == "fallible"):
+                    continue  # an observer is only wired when something in the pipeline can fail
                 s2 = copy.deepcopy(op)
                 s2.update(mod)
                 out.append(plant("shadowed_dependency", f"via_shadow:outer_{cname}@L{lo}:inner_{mname}@L{b.depth}",
